@@ -48,6 +48,8 @@ def make_budget(it, tree):
         "_lock": LockV(),
         "_events": dq,
     })
+    from pyvc.harness import adopt_unknown_fields
+    adopt_unknown_fields(it, b, ci, {"max_retries": 1, "window_s": 1.0}, set(b.fields))
     last = z3.Real(fresh_name("last_now"))
     it.path.ghost["now"] = last
     from contracts import locks
